@@ -805,6 +805,19 @@ func c15Small(o *vfOut, r *vfRand, idx int, base string) {
 				o.Viol("C15/torn-record-accepted", fmt.Sprintf("%s truncate@%d/%s: %d messages", id, tr, kind, len(run.msgs)))
 			}
 			o.Stat("trunc-" + kind + "-" + run.verdict)
+			// F38: a tail torn 1-3 bytes into a record (inside the checksum field). C15's statement
+			// allows end-of-log or corruption for a truncation, so no oracle clause here (C05 has
+			// it); the model (KV/Model/Wal.lean, `b1 = []`) pins `corrupt` through the
+			// correspondence of the truncall line below. Counted to show the inputs are generated.
+			if k < len(c.ends) {
+				prev := 0
+				if k > 0 {
+					prev = c.ends[k-1]
+				}
+				if d := tr - prev; d >= 1 && d <= 3 {
+					o.Stat("trunc-" + kind + "-fragment-1to3-" + run.verdict)
+				}
+			}
 		}
 		o.Op("wal", "truncall "+kind+" "+vfHex(flat), c15RLE(toks))
 
